@@ -991,6 +991,7 @@ def binarize_history(cases, pick):
         inner = [n for n in tree.traverse() if not n.is_leaf() and not n.is_root()]
         if not inner:
             continue
+        vi = None
         try:
             first = binarize(tree)
             first = [first] if isinstance(first, Tree) else list(first)
@@ -1002,7 +1003,8 @@ def binarize_history(cases, pick):
             second = [second] if isinstance(second, Tree) else list(second)
             got = sorted(canon_ete(r) for r in second)
         except Exception as e:  # noqa
-            return {"kind": "binarize-history", "tree": t}, f"binarize on an edited tree raised {type(e).__name__}: {e}"
+            return ({"kind": "binarize-history", "tree": t, "victim": vi or 0},
+                    f"binarize on an edited tree raised {type(e).__name__}: {e}")
         want = sorted(canon_nested(r) for r in refinements(now))
         if got != want:
             return ({"kind": "binarize-history", "tree": t, "after_edit": now, "victim": vi},
@@ -1014,7 +1016,9 @@ def binarize_history(cases, pick):
 def run(ctx, res):
     hist = [t for t in enumerator_cases(ctx) if has_polytomy(t) or True][: ctx.budget(150, 1500)]
     case, bad = binarize_history(hist, lambda k: ctx.rng.randrange(k))
-    res.dist["binarize: call / edit in place / call histories"] += len(hist)
+    # only trees with an internal non-root node have a history (the others are skipped by binarize_history)
+    res.dist["binarize: call / edit in place / call histories"] += sum(
+        1 for t in hist if isinstance(t, dict) and any(isinstance(c, dict) for c in t["c"]))
     if bad:
         res.violation(bad, case)
     check_graft(ctx, res)
